@@ -265,8 +265,6 @@ class MonteCarlo(SingleDriver, Generic[MoveType, CriteriaType]):
 
         return dictionary
 
-    todict = to_dict
-
     @classmethod
     def from_dict(cls, data: dict[str, Any], **kwargs_override: Any) -> Self:
         """
